@@ -176,6 +176,7 @@ Sign ==
   Mk("crypto_sign", Ls, Z, {0, 1}, "ok", LAMBDA a, b : <<Out(a + 64), LenP, Inz(a), In(64)>>) \cup
   Mk("crypto_sign_open", Ls, Z, {0, 1}, "open", LAMBDA a, b : <<Outz(a), LenP, In(a + 64), In(32)>>) \cup
   Mk("crypto_sign_open_short", {0, 1, 63}, Z, Z, "fail", LAMBDA a, b : <<Outz(0), LenP, In(a), In(32)>>) \cup
+  Mk("crypto_sign_open_verifyonly", Ls, Z, {0, 1}, "open", LAMBDA a, b : <<LenP, In(a + 64), In(32)>>) \cup
   Mk("crypto_sign_detached", Ls, Z, {0, 1}, "ok", LAMBDA a, b : <<Out(64), LenP, Inz(a), In(64)>>) \cup
   Mk("crypto_sign_verify_detached", Ls, Z, {0, 1}, "open", LAMBDA a, b : <<In(64), Inz(a), In(32)>>) \cup
   Mk("crypto_sign_multi_create", Ls, {0, 1, 128}, Z, "ok", LAMBDA a, b : <<St(StateBytes.sign), Out(64), LenP, Inz(a), In(64)>>) \cup
